@@ -119,7 +119,19 @@ def run(ctx, rep):
                 user_calls = [(bi, t) for bi, t in B.calls() if t.get("resolved") == "unresolved" or t.get("indirect")]
                 ok = True
                 why = None
-                if len(user_calls) != 1:
+                sdeleg = [(bi, t) for bi, t in B.calls() if atomics.callee_of(t) in F.bodies and (F.body(atomics.callee_of(t)).get("impl") or {}).get("trait") == SER and F.body(atomics.callee_of(t)).get("name") == "serialize" and F.handle_name(F.body(atomics.callee_of(t))["impl"]["self_ty"]) in ("Arc", "UniqueArc") and atomics.callee_of(t) != key]
+                if not user_calls and len(sdeleg) == 1:
+                    # `UniqueArc::serialize` = the wrapped handle's `serialize` (judged by this same rule): same value, same calls
+                    bi, t = sdeleg[0]
+                    if not linear_into_call(b, 2, t, 1):
+                        ok, why = False, "the serializer is not handed, exactly once and by move, to the delegate's serialize"
+                    o = B.origin_local(0)
+                    if not ((t["dest"]["l"] == 0 and not t["dest"]["p"]) or (o.get("kind") == "call" and o["term"] is t)):
+                        ok, why = False, "the delegate's result is not returned unchanged"
+                    vl = operand_place(t["args"][0])
+                    if vl is None or 1 not in c03.root_args(B, vl["l"]):
+                        ok, why = False, "the handle passed to the delegate's serialize does not derive from `self`"
+                elif len(user_calls) != 1:
                     ok, why = False, "expected exactly one call into user code (the payload's Serialize::serialize), found %d: %s" % (len(user_calls), [atomics.callee_of(t) for _b, t in user_calls])
                 else:
                     bi, t = user_calls[0]
@@ -184,6 +196,8 @@ def run(ctx, rep):
                                 tt = F.ty(a["t"])
                                 if tt["k"] in ("fndef", "closure") and tt["def"] in F.bodies and c03.is_move_class(E, tt["def"]):
                                     conv_ok = True
+                                if tt["k"] == "fndef" and tt["def"].rsplit("::", 1)[0] in F.handle_paths.values() and tt["def"].rsplit("::", 1)[0] == F.handle_paths.get(tt["def"].rsplit("::", 1)[1]):
+                                    conv_ok = True  # the tuple-struct constructor of a handle that wraps another (`UniqueArc(arc)`): one owner in, one out
                         if not conv_ok:
                             ok, why = False, "the function mapped over the delegate's Ok value is not a count-neutral handle conversion"
                     else:
